@@ -53,6 +53,7 @@ def build(base, case, canonical):
         "src/sub/g.h": "int g;\n",
         "alt/sub/g.h": "int galt;\n#ifdef A\nint galt_a;\n#endif\n",
         "lnk/h.h": "int decoy;\n#define DECOY\n",      # must never be picked: a.c lives in src/, whatever it was called on the command line
+        "inc/cfg.h.in": "int tmpl;\n@VALUE@\n",       # not a source file; a link named cfg.h may point to it (L6) and is then no member either
     }
     links = {}
     if not canonical:
@@ -68,7 +69,7 @@ def build(base, case, canonical):
         if X_LINKS[xl] == "outside-link":
             need.add("L4")
         if X_LINKS[xl] == "all-links-present":
-            need |= {"L1", "L2", "L3", "L4", "L5"}
+            need |= {"L1", "L2", "L3", "L4", "L5", "L6"}
         if "L1" in need:
             links["src/a_link.c"] = "a.c"
         if "L2" in need:
@@ -79,6 +80,8 @@ def build(base, case, canonical):
             links["src/out.c"] = "../../root-old/o.c"
         if "L5" in need:
             links["lnk/a.c"] = "../src/a.c"
+        if "L6" in need:
+            links["inc/cfg.h"] = "cfg.h.in"
         if "@" in gopt:
             links["cur"] = gopt.split("@")[1]
     codebase.write_tree(root, files, links)
